@@ -108,19 +108,22 @@ pub open spec fn start_line_spec(line: int, count: int) -> int {
     if count == 0 { line } else if line >= 1 { line - 1 } else { 0 }
 }
 
-/// hunk_wf of specs/hunk.rs with explicit bounds instead of BIG(): lengths <= len_max, start lines <= line_max.
-pub open spec fn hunk_wf_lines<L>(h: Hunk<L>, len_max: int, line_max: int) -> bool {
-    let p = h.prefix_context as int;
-    let s = h.suffix_context as int;
-    let rem = h.remove.content@;
-    let add = h.add.content@;
+/// "the declared context really is context on both sides" (the quantified part of hunk_wf of specs/hunk.rs)
+#[verifier::opaque]
+pub open spec fn ctx_wf<L>(rem: Seq<L>, add: Seq<L>, p: int, s: int) -> bool {
+    &&& 0 <= p && 0 <= s
     &&& p + s <= rem.len()
     &&& p + s <= add.len()
-    &&& rem.len() <= len_max && add.len() <= len_max
-    &&& 0 <= h.remove.target_line <= line_max
-    &&& 0 <= h.add.target_line <= line_max
     &&& forall|i: int| 0 <= i < p ==> #[trigger] rem[i] == add[i]
     &&& forall|i: int| rem.len() - s <= i < rem.len() ==> #[trigger] rem[i] == add[i - rem.len() + add.len()]
+}
+
+/// hunk_wf of specs/hunk.rs with explicit bounds instead of BIG(): lengths <= len_max, start lines <= line_max.
+pub open spec fn hunk_wf_lines<L>(h: Hunk<L>, len_max: int, line_max: int) -> bool {
+    &&& ctx_wf(h.remove.content@, h.add.content@, h.prefix_context as int, h.suffix_context as int)
+    &&& h.remove.content@.len() <= len_max && h.add.content@.len() <= len_max
+    &&& 0 <= h.remove.target_line <= line_max
+    &&& 0 <= h.add.target_line <= line_max
 }
 
 /// The link to hunk_wf: it follows as soon as both bounds are below BIG() = 2^60.
@@ -132,6 +135,40 @@ pub proof fn lemma_hunk_wf_from_lines<L>(h: Hunk<L>, len_max: int, line_max: int
     ensures
         hunk_wf(h),
 {
+    reveal(ctx_wf);
+}
+
+pub proof fn lemma_ctx_wf_empty<L>()
+    ensures ctx_wf(Seq::<L>::empty(), Seq::<L>::empty(), 0, 0),
+{
+    reveal(ctx_wf);
+}
+
+/// One more line: how the context bookkeeping of a well-formed hunk continues.  `nc` = a changed line was seen
+/// before; while !nc both sides consist of the p context lines only.  (Facts about hypothetical pushes; which of them
+/// applies is decided by what the code does.)
+pub proof fn lemma_ctx_wf_push<L>(rem: Seq<L>, add: Seq<L>, p: int, s: int, nc: bool, line: L)
+    requires
+        ctx_wf(rem, add, p, s),
+        !nc ==> s == 0 && p == rem.len() && p == add.len(),
+    ensures
+        ctx_wf(rem, add.push(line), p, 0),
+        ctx_wf(rem.push(line), add, p, 0),
+        nc ==> ctx_wf(rem.push(line), add.push(line), p, s + 1),
+        !nc ==> ctx_wf(rem.push(line), add.push(line), p + 1, 0),
+{
+    reveal(ctx_wf);
+    let r1 = rem.push(line);
+    let a1 = add.push(line);
+    if nc {
+        assert forall|i: int| r1.len() - (s + 1) <= i < r1.len() implies #[trigger] r1[i] == a1[i - r1.len() + a1.len()] by {
+            if i < rem.len() { assert(rem[i] == add[i - rem.len() + add.len()]); }
+        }
+    } else {
+        assert forall|i: int| 0 <= i < p + 1 implies #[trigger] r1[i] == a1[i] by {
+            if i < p { assert(rem[i] == add[i]); }
+        }
+    }
 }
 
 /// What the hunk assembler must deliver for a header `hd` (C01 L3): sizes as announced, start lines by the convention.
@@ -178,6 +215,7 @@ pub open spec fn run_input(start: Seq<u8>, ls: Seq<HunkLineSpec>, i: int) -> Seq
 }
 /// ls is the run of hunk lines read from `start`: every element is what the line parser yields on the remainder
 /// left by its predecessor
+#[verifier::opaque]
 pub open spec fn is_line_run(start: Seq<u8>, ls: Seq<HunkLineSpec>) -> bool {
     forall|i: int| 0 <= i < ls.len() ==> spec_hunk_line(run_input(start, ls, i)) == Some(#[trigger] ls[i])
 }
@@ -200,12 +238,14 @@ pub open spec fn new_lines(ls: Seq<HunkLineSpec>) -> Seq<Seq<u8>>
     }
 }
 /// the first p lines are context lines and the next one (if any) is not
+#[verifier::opaque]
 pub open spec fn is_lead_context(ls: Seq<HunkLineSpec>, p: int) -> bool {
     &&& 0 <= p <= ls.len()
     &&& forall|i: int| 0 <= i < p ==> (#[trigger] ls[i]).ty is Context
     &&& p < ls.len() ==> !(ls[p].ty is Context)
 }
 /// the last s lines are context lines and the one before them (if any) is not
+#[verifier::opaque]
 pub open spec fn is_trail_context(ls: Seq<HunkLineSpec>, s: int) -> bool {
     &&& 0 <= s <= ls.len()
     &&& forall|i: int| ls.len() - s <= i < ls.len() ==> (#[trigger] ls[i]).ty is Context
@@ -223,6 +263,11 @@ pub open spec fn hunk_body_is<'a>(hd: HeaderSpec, ls: Seq<HunkLineSpec>, h: Text
     &&& if h.prefix_context == ls.len() { h.suffix_context == 0 } else { is_trail_context(ls, h.suffix_context as int) }
 }
 
+/// ... for some run of lines (the run is determined by the line parser and the two counts of the header)
+pub open spec fn hunk_body_ok<'a>(hd: HeaderSpec, h: TextHunk<'a>, rest: Seq<u8>) -> bool {
+    exists|ls: Seq<HunkLineSpec>| hunk_body_is(hd, ls, h, rest)
+}
+
 pub proof fn lemma_old_lines_push(ls: Seq<HunkLineSpec>, x: HunkLineSpec)
     ensures old_lines(ls.push(x)) == (if x.ty is Add { old_lines(ls) } else { old_lines(ls).push(x.line) }),
 {
@@ -232,4 +277,72 @@ pub proof fn lemma_new_lines_push(ls: Seq<HunkLineSpec>, x: HunkLineSpec)
     ensures new_lines(ls.push(x)) == (if x.ty is Remove { new_lines(ls) } else { new_lines(ls).push(x.line) }),
 {
     assert(ls.push(x).drop_last() =~= ls);
+}
+
+pub proof fn lemma_line_run_empty(start: Seq<u8>)
+    ensures is_line_run(start, Seq::empty()),
+{
+    reveal(is_line_run);
+}
+pub proof fn lemma_line_run_push(start: Seq<u8>, ls: Seq<HunkLineSpec>, x: HunkLineSpec)
+    requires
+        is_line_run(start, ls),
+        spec_hunk_line(run_input(start, ls, ls.len() as int)) == Some(x),
+    ensures
+        is_line_run(start, ls.push(x)),
+        run_input(start, ls.push(x), ls.len() as int + 1) == x.rest,
+{
+    reveal(is_line_run);
+    let l1 = ls.push(x);
+    assert forall|i: int| 0 <= i < l1.len() implies spec_hunk_line(run_input(start, l1, i)) == Some(#[trigger] l1[i]) by {
+        if i < ls.len() {
+            assert(l1[i] == ls[i]);
+            assert(run_input(start, l1, i) == run_input(start, ls, i));
+        }
+    }
+}
+pub proof fn lemma_plines_push(v: Seq<&[u8]>, l: &[u8])
+    ensures plines(v.push(l)) == plines(v).push(l@),
+{
+    assert(plines(v.push(l)) =~= plines(v).push(l@));
+}
+pub proof fn lemma_plines_empty(v: Seq<&[u8]>)
+    requires v.len() == 0,
+    ensures plines(v) == Seq::<Seq<u8>>::empty(), old_lines(Seq::empty()) == Seq::<Seq<u8>>::empty(), new_lines(Seq::empty()) == Seq::<Seq<u8>>::empty(),
+{
+    assert(plines(v) =~= Seq::<Seq<u8>>::empty());
+}
+
+/// Loop-side bookkeeping of the context counters for the run `ls`: p leading context lines; `nc` = some line is not a
+/// context line; then s trailing context lines, else s = 0.
+pub open spec fn ctx_counts(ls: Seq<HunkLineSpec>, p: int, s: int, nc: bool) -> bool {
+    &&& is_lead_context(ls, p)
+    &&& 0 <= p <= ls.len() && 0 <= s
+    &&& nc <==> p < ls.len()
+    &&& nc ==> is_trail_context(ls, s)
+    &&& !nc ==> s == 0
+}
+pub proof fn lemma_ctx_counts_empty()
+    ensures ctx_counts(Seq::empty(), 0, 0, false),
+{
+    reveal(is_lead_context);
+}
+pub proof fn lemma_ctx_counts_push(ls: Seq<HunkLineSpec>, p: int, s: int, nc: bool, x: HunkLineSpec)
+    requires
+        ctx_counts(ls, p, s, nc),
+    ensures
+        !(x.ty is Context) ==> ctx_counts(ls.push(x), p, 0, true),
+        x.ty is Context && nc ==> ctx_counts(ls.push(x), p, s + 1, true),
+        x.ty is Context && !nc ==> ctx_counts(ls.push(x), p + 1, 0, false),
+{
+    reveal(is_lead_context);
+    reveal(is_trail_context);
+    let l1 = ls.push(x);
+    assert forall|i: int| 0 <= i < ls.len() implies l1[i] == ls[i] by {}
+    if x.ty is Context && nc {
+        assert forall|i: int| l1.len() - (s + 1) <= i < l1.len() implies (#[trigger] l1[i]).ty is Context by {
+            if i < ls.len() { assert(ls[i].ty is Context); }
+        }
+        if s + 1 < l1.len() { assert(l1[l1.len() - (s + 1) - 1] == ls[ls.len() - s - 1]); }
+    }
 }
